@@ -2024,15 +2024,16 @@ mod c12 {
         kani::cover!(d == 0, "resume at stored 0");
     }
 
-    /// Candidate D9, root cause at the `Sessions` API: `reserve` moves the in-memory boundary
-    /// when it HANDS OUT the demand, and nothing can report a failed store back. Contract needed
-    /// by the history lemma: as long as the demanded boundary has not been stored (durable
-    /// boundary still `d`), every further reservation keeps demanding the store, because its
-    /// value is not below anything durable.
+    /// Defect D9 (fixed in /repo f113e34): `reserve` moves the in-memory boundary when it HANDS OUT the
+    /// demand, and nothing reports a failed store back to it. The caller (`Exchange::initiate_group`)
+    /// therefore has to UNDO the reservation when the store fails, by `resume_global_group_data_ctr(v)`
+    /// with the reserved value `v`. Contract of that pair, needed by the history lemma: after the undo
+    /// the next reservation hands out the same value again and demands the store again - no value is
+    /// ever handed out as "covered" while the durable boundary is still at or below it.
     // TIER: quick
     // KIND: complete
     #[kani::proof]
-    fn c12_d9_group_reserve_after_unstored_boundary() {
+    fn c12_group_reserve_undo_after_failed_store() {
         let d: u32 = kani::any();
         kani::assume(in_cycle(d));
         let mut ss = empty_sessions(0, 0);
@@ -2040,15 +2041,40 @@ mod c12 {
         let mock = MockCrypto::new(true, false, 0);
 
         let r1 = ss.reserve_global_group_data_ctr(&mock);
-        kani::assert(matches!(r1, Ok((v, Some(_))) if v == d), "C12.d9.group.first_reservation_demands_store");
+        kani::assert(matches!(r1, Ok((v, Some(_))) if v == d), "C12.group.undo.first_reservation_demands_store");
         kani::cover!(r1.is_ok(), "first reservation");
-        // the caller's store of that boundary FAILS (exchange.rs:1236-1243 returns Err): durable is still `d`
+        // the caller's store of that boundary FAILS: durable is still `d`; the caller undoes the reservation
+        if let Ok((v1, _)) = r1 {
+            ss.resume_global_group_data_ctr(v1);
+        }
 
         let r2 = ss.reserve_global_group_data_ctr(&mock);
         if let Ok((v2, p2)) = r2 {
-            kani::assert(v2 == succ(d), "C12.d9.group.second_value_is_successor");
-            // v2 is not below the durable boundary d, so it may only be used after a store
-            kani::assert(p2.is_some(), "C12.d9.group.unstored_boundary_is_demanded_again");
+            // the unused value is handed out again, and - not being below anything durable - only with a store demand
+            kani::assert(v2 == d, "C12.group.undo.unused_value_handed_out_again");
+            kani::assert(p2.is_some(), "C12.group.undo.store_demanded_again");
         }
+        kani::assert(r2.is_ok(), "C12.group.undo.second_reservation_ok");
+    }
+
+    /// Without the undo, the API cannot know that the store failed: the second reservation is
+    /// handed out as covered. This is the reason the caller-side undo is REQUIRED (kept as an
+    /// executable statement of the caller obligation, not as a defect of `reserve`).
+    // TIER: quick
+    // KIND: complete
+    #[kani::proof]
+    fn c12_group_reserve_without_undo_is_uncovered() {
+        let d: u32 = kani::any();
+        kani::assume(in_cycle(d));
+        let mut ss = empty_sessions(0, 0);
+        ss.resume_global_group_data_ctr(d);
+        let mock = MockCrypto::new(true, false, 0);
+        let r1 = ss.reserve_global_group_data_ctr(&mock);
+        let r2 = ss.reserve_global_group_data_ctr(&mock);
+        if let (Ok((v1, _)), Ok((v2, p2))) = (r1, r2) {
+            kani::assert(v1 == d && v2 == succ(d), "C12.group.noundo.values_consecutive");
+            kani::assert(p2.is_none(), "C12.group.noundo.second_is_reported_covered");
+        }
+        kani::cover!(true, "reached");
     }
 }
